@@ -13,6 +13,7 @@ import pandas as pd
 from tabulate import tabulate
 
 from glotaran.io import load_parameters
+from glotaran.parameter.parameter import PARAMETER_EXPRESSION_REGEX
 from glotaran.parameter.parameter import Parameter
 from glotaran.utils.ipython import MarkdownStr
 from glotaran.utils.sanitize import pretty_format_numerical
@@ -307,6 +308,36 @@ class Parameters:
         except KeyError as error:
             raise ParameterNotFoundException(label) from error
 
+    def _expression_parameters_in_dependency_order(self) -> list[Parameter]:
+        """Get all parameters with an expression, ordered such that dependencies come first.
+
+        A parameter with an expression can reference other parameters with an expression
+        independent of the order of declaration, therefore referenced parameters need to be
+        evaluated first.
+
+        Returns
+        -------
+        list[Parameter]
+            The parameters with an expression in order of evaluation.
+        """
+        ordered: list[Parameter] = []
+        visited: set[str] = set()
+
+        def visit(parameter: Parameter):
+            if parameter.label in visited:
+                return
+            visited.add(parameter.label)
+            for match in PARAMETER_EXPRESSION_REGEX.finditer(parameter.expression):
+                dependency = self._parameters.get(match.group("parameter_expression"))
+                if dependency is not None and dependency.expression is not None:
+                    visit(dependency)
+            ordered.append(parameter)
+
+        for parameter in self.all():
+            if parameter.expression is not None:
+                visit(parameter)
+        return ordered
+
     def update_parameter_expression(self):
         """Update all parameters which have an expression.
 
@@ -315,15 +346,14 @@ class Parameters:
         ValueError
             Raised if an expression evaluates to a non-numeric value.
         """
-        for parameter in self.all():
-            if parameter.expression is not None:
-                value = self._evaluator(parameter.transformed_expression)
-                if not isinstance(value, (int, float)):
-                    raise ValueError(
-                        f"Expression '{parameter.expression}' of parameter '{parameter.label}' "
-                        f"evaluates to non numeric value '{value}'."
-                    )
-                parameter.value = value
+        for parameter in self._expression_parameters_in_dependency_order():
+            value = self._evaluator(parameter.transformed_expression)
+            if not isinstance(value, (int, float)):
+                raise ValueError(
+                    f"Expression '{parameter.expression}' of parameter '{parameter.label}' "
+                    f"evaluates to non numeric value '{value}'."
+                )
+            parameter.value = value
 
     def get_label_value_and_bounds_arrays(
         self, exclude_non_vary: bool = False
